@@ -73,6 +73,52 @@ theorem C29_outcome_irrelevant (p : Policy) (re rs hn : Bool) (o o' : Outcome)
     (h : asksRrdp re hn = false) : repository p re rs hn o = repository p re rs hn o' := by
   cases p <;> cases re <;> cases rs <;> cases hn <;> cases o <;> cases o' <;> first | rfl | simp [asksRrdp] at h
 
+/-! ## The outcome classes are decided by the stored best-before time and the clock alone -/
+
+/-- What the statement calls the outcome classes, in terms of what is stored and the clock:
+a failed update leaves a *current* copy iff there is a copy whose stored best-before time has not
+passed, an *expired* one iff it has passed, *no copy* iff nothing is stored. -/
+theorem C29_outcome_iff (cfg : RunConfig) (ok : Bool) (stored : Option Nat) (now : Nat) :
+    (tryUpdateOutcome cfg ok stored now = .updated ↔ ok = true) ∧
+    (tryUpdateOutcome cfg ok stored now = .current ↔ ok = false ∧ ∃ bb, stored = some bb ∧ now ≤ bb) ∧
+    (tryUpdateOutcome cfg ok stored now = .stale ↔ ok = false ∧ ∃ bb, stored = some bb ∧ bb < now) ∧
+    (tryUpdateOutcome cfg ok stored now = .unavailable ↔ ok = false ∧ stored = none) := by
+  cases ok <;> cases stored with
+  | none => simp [tryUpdateOutcome]
+  | some bb =>
+    by_cases h : now ≤ bb
+    · simp [tryUpdateOutcome, h]; try omega
+    · simp [tryUpdateOutcome, h]; try omega
+
+/-- The classification depends on nothing but (update result, stored best-before, now): in
+particular not on the `refresh` / `rrdp-fallback-time` of the configuration that happens to be
+running now (the stored time was picked under whatever configuration was in effect then). A model
+of code that consults the running configuration here does not satisfy this. -/
+theorem C29_outcome_config_independent (cfg cfg' : RunConfig) (ok : Bool) (stored : Option Nat)
+    (now : Nat) : tryUpdateOutcome cfg ok stored now = tryUpdateOutcome cfg' ok stored now := rfl
+
+/-- End to end: whatever the running configuration, the policy and the rsync switch — a failed
+update with a copy whose stored best-before has not passed never falls back and uses no
+transport at all (the stored data is used instead). -/
+theorem C29_current_copy_never_falls_back (cfg : RunConfig) (p : Policy) (rs : Bool)
+    (bb now : Nat) (h : now ≤ bb) :
+    repository p true rs true (tryUpdateOutcome cfg false (some bb) now) = .none := by
+  simp only [tryUpdateOutcome, h, if_true]
+  exact C29_current_never_falls_back p rs
+
+/-- … and with an expired copy rsync is used exactly under the policy `stale`. -/
+theorem C29_expired_copy (cfg : RunConfig) (p : Policy) (bb now : Nat) (h : bb < now) :
+    repository p true true true (tryUpdateOutcome cfg false (some bb) now) =
+      (if p = .stale then .rsync else .none) := by
+  have : ¬ now ≤ bb := by omega
+  simp only [tryUpdateOutcome, this]
+  cases p <;> decide
+
+example : tryUpdateOutcome ⟨600, 3600⟩ false (some 10000) 9000 = .current := by decide
+example : tryUpdateOutcome ⟨600, 600⟩ false (some 10000) 1000 = .current := by decide
+example : tryUpdateOutcome ⟨600, 3600⟩ false (some 10000) 10000 = .current := by decide
+example : tryUpdateOutcome ⟨600, 3600⟩ false (some 10000) 10001 = .stale := by decide
+
 /-! Non-vacuity: each transport occurs, and each policy distinguishes some row. -/
 example : repository .stale true true true .stale = .rsync := by decide
 example : repository .new true true true .stale = .none := by decide
